@@ -57,6 +57,8 @@ def direct_cases(ctx):
 
 
 UNIVERSE = ["2025-06-18", "2025-03-26", "2024-11-05", "2026-01-01", "2023-01-01", "1.0"]
+# look-alikes of supported versions that a client might (wrongly) offer: must never be agreed on
+LOOKALIKES = ["2025-06-18\n", "\uff12\uff10\uff12\uff15-06-18", "2025-06-18 ", "2025-6-18", "2025-06-18T00:00:00Z"]
 
 
 def e2e_cases(ctx):
@@ -66,6 +68,8 @@ def e2e_cases(ctx):
     rng = ctx.sub_rng("c04e2e")
     if ctx.tier == "quick":
         lists = [l for l in lists if len(l) <= 2] + rng.sample([l for l in lists if len(l) == 3], 40)
+    for la in LOOKALIKES:
+        lists += [[la], [la, "2025-03-26"], ["2023-01-01", la]]
     for l in lists:
         prefs = [None, l[-1], "2024-11-05", "nonsense"]
         for p in prefs:
